@@ -63,6 +63,44 @@ type Step struct {
 	Settled  bool     `json:"settled"`
 	Cmd      string   `json:"cmd"`
 	Note     string   `json:"note"`
+	// C16 (op Life / Expiry)
+	Ev       string   `json:"ev"`  // the event that preceded this observation
+	Lst      []Lstate `json:"lst"` // every listener: endpoint and client-side state
+	Reg      []EC     `json:"reg"` // Manager.Endpoints()
+	Sess     int      `json:"sess"`
+	Adv      []EC     `json:"adv"` // cluster.State local endpoints
+	Gos      []EC     `json:"gos"` // live endpoint:* keys of the gossip state
+	Disabled bool     `json:"disabled"`
+	DeltaMs  int      `json:"deltaMs"` // Expiry: close time minus token expiry (ms); 99999 = still open
+	// C18 (op Loss)
+	Victim   string   `json:"victim"`
+	Kill     bool     `json:"kill"`
+	Phase    string   `json:"phase"`
+	StopMs   int      `json:"stopMs"`
+	GraceMs  int      `json:"graceMs"`
+	Checks   []Check  `json:"checks"`
+	// C08 (op Http)
+	Case     string   `json:"case"`
+	Fields   []string `json:"fields"` // names of request/response fields that differ
+	WantSt   int      `json:"wantSt"`
+	TookMs   int      `json:"tookMs"`
+	LimitMs  int      `json:"limitMs"`
+}
+
+type Lstate struct {
+	E  string `json:"e"`
+	St string `json:"st"` // connected | goaway | removed | closed
+}
+
+type EC struct {
+	E string `json:"e"`
+	C int    `json:"c"`
+}
+
+type Check struct {
+	Name string `json:"name"`
+	OK   bool   `json:"ok"`
+	Info string `json:"info"`
 }
 
 type sched struct {
@@ -517,6 +555,24 @@ func main() {
 		if s.Placed == nil {
 			s.Placed = []Placed{}
 		}
+		if s.Lst == nil {
+			s.Lst = []Lstate{}
+		}
+		if s.Reg == nil {
+			s.Reg = []EC{}
+		}
+		if s.Adv == nil {
+			s.Adv = []EC{}
+		}
+		if s.Gos == nil {
+			s.Gos = []EC{}
+		}
+		if s.Checks == nil {
+			s.Checks = []Check{}
+		}
+		if s.Fields == nil {
+			s.Fields = []string{}
+		}
 		if s.Cmd == "" {
 			b, _ := json.Marshal([]interface{}{s.Op, s.Nodes, s.Has, s.Bel, s.Entry, s.Ext, s.Route, s.Mode, s.Target, s.Placed})
 			s.Cmd = string(b)
@@ -636,6 +692,17 @@ func main() {
 			runC01Churn(c, sf.Churn, emit, rng)
 		}
 		c.stop()
+	case "c16":
+		for i := 0; i < sf.Sample; i++ {
+			if err := runC16(rng, 10+rng.Intn(8), emit); err != nil {
+				fail(err)
+			}
+		}
+		for _, disabled := range []bool{false, true} {
+			if err := runExpiry(disabled, emit); err != nil {
+				fail(err)
+			}
+		}
 	}
 	writeStats(*statsPath, steps, byOp, len(distinct))
 }
